@@ -62,11 +62,14 @@ AgreementP(M, D, O, U) ==
 
 \* ---- C02 (session level) ---------------------------------------------------------------------
 \* application data handed out by session s for delivered message m
+\* records sealed for RespHello a open under RespHello b when both have the same pair of ephemerals (Noise NN keys)
+KeyEq(M, a, b) == /\ a # 0 /\ b # 0 /\ M[a].t = "RH" /\ M[b].t = "RH" /\ M[a].eph = M[b].eph
+                  /\ M[a].ref # 0 /\ M[b].ref # 0 /\ M[M[a].ref].eph = M[M[b].ref].eph
 AuthenticP(M, D, O, s, m, pt) ==
     /\ pt # -1                                             \* byte-identical to a plaintext given to Send
     /\ M[m].t = "D" /\ M[m].pt = pt /\ M[m].dir = InDir(s)
-    /\ IF role[s] = "init" THEN M[m].ref \in ProofIds(M, D, s, O[s].rk)
-       ELSE M[m].ref # 0 /\ M[M[m].ref].by = s
+    /\ IF role[s] = "init" THEN \E p \in ProofIds(M, D, s, O[s].rk) : KeyEq(M, M[m].ref, p)
+       ELSE \E q \in 1..Len(M) : M[q].t = "RH" /\ M[q].by = s /\ KeyEq(M, M[m].ref, q)
     /\ IF M[m].by \in sess THEN keyof[M[m].by] = O[s].rk ELSE O[s].rk = "M"
 Sealed(M) == {i \in 1..Len(M) : M[i].t \in {"ID", "RD", "D"} /\ M[i].by \in sess}
 NonceUniqueP(M) == \A a, b \in Sealed(M) :
